@@ -121,7 +121,7 @@ def run(ctx: Ctx):
         early = [x for x in ast.walk(nl) if isinstance(x, (ast.Break, ast.Return))]
         ctx.ob("C14-O2", "R21 search discipline", sc_, "the depth-first search looks at every neighbour of a node (no early exit from the neighbour loop)", not early, "a neighbour that is skipped is visited later as a new root: if it reaches back the component is split, otherwise its component is listed after one that has an edge into it", node=early[0] if early else nl)
     # O3 Kahn
-    check_kahn(ctx, "C14-O3")
+    ctx.step(check_kahn, "C14-O3")
 
     # O4 condense
     cd = fs["condense"]
